@@ -448,9 +448,12 @@ def run(ctx):
     shared_list_schedules(ctx, rng, 'a', n_cells=9, chunk_size=3, limit=lim3)
     if not q:
         mapping_schedules(ctx, rng, 'b', n_cells=12, chunk_size=3, n_processors=4, limit=lim4)
-        mapping_schedules(ctx, rng, 'c', n_cells=10, chunk_size=4, n_processors=2, limit=6)
+        mapping_schedules(ctx, rng, 'c', n_cells=10, chunk_size=4, n_processors=2, limit=6)   # 3 chunks, 2 at a time
+        mapping_schedules(ctx, rng, 'd', n_cells=23, chunk_size=6, n_processors=4, limit=lim4)  # files 0_6 12_18 18_23 6_12
+        mapping_schedules(ctx, rng, 'e', n_cells=7, chunk_size=2, n_processors=4, limit=lim4)
         shared_list_schedules(ctx, rng, 'b', n_cells=8, chunk_size=2, limit=lim4)
-    for rd in range(1 if q else 3):
+        shared_list_schedules(ctx, rng, 'c', n_cells=11, chunk_size=4, limit=6)
+    for rd in range(1 if q else 5):
         fb = ctx.scratch / f'ref{rd}'
         fb.mkdir()
         gt, genes, n_rows = K.reference_inputs(rng, fb, min_leaves=5, max_leaves=7, levels=2)
@@ -492,6 +495,7 @@ def run(ctx):
     hash_seed_runs(ctx, rng, 'a', [0, 1, 2] if q else [0, 1, 2, 3, 4, 5])
     if not q:
         hash_seed_runs(ctx, rng, 'b', [0, 7, 11, 12345])
+        hash_seed_runs(ctx, rng, 'c', [3, 5, 99, 2 ** 31])
 
 
 def replay(ctx, rec):
